@@ -137,7 +137,9 @@ func init() {
 			ex.sched.point()
 			return nil
 		}}
+		ex.ghost["spawnInner"] = f
 		ex.sched.spawn(wrapper, nil, nil)
+		ex.ghost["spawnInner"] = (*FuncV)(nil)
 		return nil
 	})
 	// ---- sync.Once / OnceFunc / Pool
@@ -388,15 +390,16 @@ func init() {
 	}
 	suffixStubs["vfGo"] = func(ex *Exec, fn *ssa.Function, args []Value) Value {
 		ex.ghost["nextGoName"] = ex.argString(args[0])
+		ex.ghost["nextGoHarness"] = true
 		ex.sched.spawn(args[1].(*FuncV), nil, nil)
 		return nil
 	}
 	suffixStubs["vfJoin"] = func(ex *Exec, fn *ssa.Function, args []Value) Value {
-		// wait until every goroutine started with vfGo/go has finished
+		// wait until every goroutine started with vfGo has finished (as the native sync.WaitGroup does)
 		s := ex.sched
 		s.block(func() bool {
 			for _, g := range s.gs[1:] {
-				if !g.done {
+				if g.harness && !g.done {
 					return false
 				}
 			}
